@@ -1565,4 +1565,177 @@ pub mod verif {
     ) -> BlockRange {
         super::calculate_range_to_fetch(subjective_head_height, synced_headers, limit)
     }
+
+    use crate::events::{EventChannel, EventSubscriber};
+    use crate::p2p::verif::MockedP2p;
+    use crate::store::InMemoryStore;
+
+    /// C38: the real `Syncer` (spawned `Worker::run`, both event loops) on a mocked `P2p`.
+    pub struct VerifSyncer {
+        syncer: Syncer<InMemoryStore>,
+        _events: EventChannel,
+    }
+
+    /// Needs a tokio runtime context (the worker is spawned).
+    pub fn start_syncer(
+        p2p: &MockedP2p,
+        store: Arc<InMemoryStore>,
+        batch_size: u64,
+        sampling_window: Duration,
+        pruning_window: Duration,
+    ) -> (VerifSyncer, EventSubscriber) {
+        let events = EventChannel::new();
+        let sub = events.subscribe();
+        let syncer = Syncer::start(SyncerArgs {
+            p2p: p2p.0.clone(),
+            store,
+            event_pub: events.publisher(),
+            batch_size,
+            sampling_window,
+            pruning_window,
+        })
+        .expect("Syncer::start");
+        (
+            VerifSyncer {
+                syncer,
+                _events: events,
+            },
+            sub,
+        )
+    }
+
+    impl VerifSyncer {
+        /// (stored ranges, subjective head); `None` when the worker is gone
+        pub async fn info(&self) -> Option<(Vec<(u64, u64)>, u64)> {
+            let info = self.syncer.info().await.ok()?;
+            let ranges = info
+                .stored_headers
+                .as_ref()
+                .iter()
+                .map(|r| (*r.start(), *r.end()))
+                .collect();
+            Some((ranges, info.subjective_head))
+        }
+
+        pub fn stop(&self) {
+            self.syncer.stop()
+        }
+
+        pub async fn join(&self) {
+            self.syncer.join().await
+        }
+    }
+
+    /// C25: the real `Worker`, not spawned: the caller sets the two heights the event loops
+    /// maintain and calls the real `fetch_next_batch` / `on_fetch_next_batch_result`.
+    pub struct VerifWorker {
+        w: Worker<InMemoryStore>,
+        _cmd_tx: mpsc::Sender<SyncerCmd>,
+        _events: EventChannel,
+    }
+
+    pub fn worker(
+        p2p: &MockedP2p,
+        store: Arc<InMemoryStore>,
+        batch_size: u64,
+        sampling_window: Duration,
+        pruning_window: Duration,
+    ) -> (VerifWorker, EventSubscriber) {
+        let events = EventChannel::new();
+        let sub = events.subscribe();
+        let (cmd_tx, cmd_rx) = mpsc::channel(16);
+        let w = Worker::new(
+            SyncerArgs {
+                p2p: p2p.0.clone(),
+                store,
+                event_pub: events.publisher(),
+                batch_size,
+                sampling_window,
+                pruning_window,
+            },
+            CancellationToken::new(),
+            cmd_rx,
+        )
+        .expect("Worker::new");
+        (
+            VerifWorker {
+                w,
+                _cmd_tx: cmd_tx,
+                _events: events,
+            },
+            sub,
+        )
+    }
+
+    impl VerifWorker {
+        pub fn set_batch_size(&mut self, batch_size: u64) {
+            self.w.batch_size = batch_size;
+        }
+
+        /// the real (monotone) setter
+        pub fn set_subjective_head_height(&mut self, height: u64) {
+            self.w.set_subjective_head_height(height)
+        }
+
+        pub fn subjective_head_height(&self) -> Option<u64> {
+            self.w.subjective_head_height
+        }
+
+        pub fn set_highest_slow_sync_height(&mut self, height: Option<u64>) {
+            self.w.highest_slow_sync_height = height;
+        }
+
+        pub fn highest_slow_sync_height(&self) -> Option<u64> {
+            self.w.highest_slow_sync_height
+        }
+
+        /// what `connecting_event_loop` does with the network head besides the p2p command
+        pub fn init_broadcast(&mut self, head: ExtendedHeader) {
+            self.w.store.init_broadcast(head)
+        }
+
+        pub fn ongoing(&self) -> Option<(u64, u64)> {
+            self.w
+                .ongoing_batch
+                .range
+                .as_ref()
+                .map(|r| (*r.start(), *r.end()))
+        }
+
+        pub async fn fetch_next_batch(&mut self) -> Result<(), String> {
+            self.w.fetch_next_batch().await.map_err(|e| e.to_string())
+        }
+
+        /// Poll the ongoing batch task once (lets the header session emit its requests).
+        /// `true` if it completed (its result is dropped).
+        pub async fn poll_ongoing_once(&mut self) -> bool {
+            futures::poll!(&mut self.w.ongoing_batch.task).is_ready()
+        }
+
+        /// What `connected_event_loop` does when it leaves: forget the ongoing batch.
+        pub fn cancel_ongoing(&mut self) {
+            self.w.ongoing_batch.range.take();
+            self.w.ongoing_batch.task.terminate();
+        }
+
+        /// The real `on_fetch_next_batch_result` for the ongoing batch with the given outcome
+        /// of the request (the request task itself is dropped).
+        pub async fn on_fetch_next_batch_result(
+            &mut self,
+            res: Result<Vec<ExtendedHeader>, P2pError>,
+        ) -> Result<(), String> {
+            self.w.ongoing_batch.task.terminate();
+            self.w
+                .on_fetch_next_batch_result(res, Duration::ZERO)
+                .await
+                .map_err(|e| e.to_string())
+        }
+
+        pub async fn on_header_sub_message(&mut self, head: ExtendedHeader) -> Result<(), String> {
+            self.w
+                .on_header_sub_message(head)
+                .await
+                .map_err(|e| e.to_string())
+        }
+    }
 }
